@@ -425,7 +425,9 @@ fn run_gm<B: BmCtl>() -> RunInfo {
             }
         }
         // ----- C16: nothing else is marked -------------------------------------------------------------
-        if st.effect != Effect::PartialFail {
+        {
+            // (a request that failed part-way owes marks only to C05, but even then no page that
+            // overlaps none of the bytes it wrote may become dirty)
             for (i, r) in w.regs.iter().enumerate() {
                 let mut ranges: Vec<(usize, usize)> = Vec::new();
                 for &(ga, len) in st.wrote.iter().chain(st.failed_fd.iter()) {
